@@ -3,11 +3,15 @@
 Real code: Engine.tick, Engine.set_method / inject_code / execute_control_command_from_user / cancel_instruction /
 force_instruction, MethodManager.merge_method, PInterpreter.inject_node -- and everything they call.
 
-Method (no threads): an import-time transform (symx/yieldpoints.py) inserts a call to a no-op hook before every
-statement of the functions above.  The harness runs the ticking thread T and lets a solver variable choose the
-yield point of Engine.tick at which the *whole* request R runs inline; symmetrically it runs R and lets the solver
-choose the yield point of R at which a whole tick runs.  Engine._lock is replaced by a recording lock: a party
-that would block on it at the chosen point is deferred to the release, as the real lock would do.
+Method (no OS threads; the two parties are coroutines): an import-time transform (symx/yieldpoints.py) inserts a call
+to a no-op hook before every statement of the functions above.  The harness runs the ticking thread T and lets a
+solver variable choose the yield point of Engine.tick at which the request R starts running; symmetrically it runs
+R and lets the solver choose the yield point of R at which a tick starts.  Engine._lock is replaced by a lock with
+the same blocking semantics: the party that reaches `with self._lock` while the other holds it is suspended right
+there (greenlet switch) -- having already executed whatever it does before taking the lock -- and resumes when the
+holder releases it.
+Phases: a UOD command running, a Wait running, and the ticks that complete a Stop or a Restart (which replace the
+interpreter, the tracking and the command manager).
 Oracle: the observable outcome (marks, System State, method state, UOD callbacks, run-log item names/states, no
 exception, the request's effect present) after three further ticks equals the outcome of one of the two serial
 orders R;T or T;R.
@@ -30,26 +34,37 @@ except RuntimeError:
 
 PCODE = ["Mark: M1", "CmdA", "Wait: 0.5s", "Mark: M2", "Mark: M3"]
 WARM = {"early": 4, "cmd": 6, "wait": 9}       # ticks before the interleaved tick: before CmdA, while it runs, during the Wait
-REQUESTS = ["inject", "pause", "stop", "edit", "cancel_wait", "force_wait", "hold"]
+REQUESTS = ["inject", "pause", "stop", "edit", "cancel_wait", "force_wait", "hold"]     # + start / restart in the stopping and restarting phases
 
 
 class RecLock:
+    """Engine._lock with the blocking semantics of threading.Lock, for two parties run as coroutines (greenlets):
+    a party that acquires the lock while the other holds it is suspended and resumed when the holder releases it."""
+
     def __init__(self):
         self.held = False
-        self.on_release = None
+        self.waiter = None
         self.acquisitions = 0
+        self.blocked = 0
 
     def __enter__(self):
-        assert not self.held, "harness bug: lock re-entered"
+        import greenlet
+        if self.held:
+            cur = greenlet.getcurrent()
+            assert cur.parent is not None and self.waiter is None, "harness bug: the main party blocks on a lock held by a suspended party"
+            self.waiter = cur
+            self.blocked += 1
+            cur.parent.switch()            # suspended here until the holder releases the lock
+            assert not self.held, "harness bug: resumed while the lock is held"
         self.held = True
         self.acquisitions += 1
         return self
 
     def __exit__(self, *a):
         self.held = False
-        cb, self.on_release = self.on_release, None
-        if cb is not None:
-            cb()
+        w, self.waiter = self.waiter, None
+        if w is not None:
+            w.switch()                     # the blocked party continues (to its end, or until it blocks again)
         return False
 
     def acquire(self, *a, **k):
@@ -67,8 +82,8 @@ def _make_request(rig, kind):
     e = rig.engine
     if kind == "inject":
         return (lambda: e.inject_code("Mark: INJ")), False
-    if kind in ("pause", "stop", "hold"):
-        name = {"pause": "Pause", "stop": "Stop", "hold": "Hold"}[kind]
+    if kind in ("pause", "stop", "hold", "start", "restart"):
+        name = kind.capitalize()
         return (lambda: e.execute_control_command_from_user(name)), False
     if kind == "edit":
         def edit():
@@ -112,10 +127,14 @@ def _scenario(sym, kind, phase, mode, k, takes_lock=None):
         e._lock = lock
         e.set_method(Mdl.Method(lines=[Mdl.MethodLine(id=i, content=c) for i, c in zip(ids, PCODE)], version=0))
         rig.user("Start")
-        for _ in range(WARM[phase]):
+        for _ in range(WARM[phase.split("+")[0]]):
             rig.tick(0.1)
+        if "+" in phase:                   # e.g. "cmd+Stop1": the user command, then that many ticks, before the interleaved tick
+            pre = phase.split("+")[1]
+            rig.user(pre[:-1])
+            for _ in range(int(pre[-1])):
+                rig.tick(0.1)
         req, _declared = _make_request(rig, kind)
-        needs_lock = bool(takes_lock)      # measured on the serial run: does this request acquire Engine._lock?
         state = {"exc": None, "count": 0, "fired": False, "points": 0, "req_locks": 0}
 
         def run_req():
@@ -126,6 +145,12 @@ def _scenario(sym, kind, phase, mode, k, takes_lock=None):
                 state["exc"] = ex
             state["req_locks"] += lock.acquisitions - a0
 
+        def spawn(fn):
+            import greenlet
+            g = greenlet.greenlet(fn)
+            state["g"] = g
+            g.switch()                     # runs until it ends or blocks on Engine._lock (then resumed by the release)
+
         def hook_in_tick(label):
             if not label.startswith("Engine.tick:"):
                 return
@@ -134,10 +159,7 @@ def _scenario(sym, kind, phase, mode, k, takes_lock=None):
             if state["fired"] or n != k:
                 return
             state["fired"] = True
-            if needs_lock and lock.held:
-                lock.on_release = run_req          # would block on Engine._lock until the tick releases it
-            else:
-                run_req()
+            spawn(run_req)                 # the request's thread runs up to where it blocks on Engine._lock (if the tick holds it)
 
         def hook_in_req(label):
             if label.startswith("Engine.tick:"):
@@ -147,12 +169,9 @@ def _scenario(sym, kind, phase, mode, k, takes_lock=None):
             if state["fired"] or n != k:
                 return
             state["fired"] = True
-            if lock.held:
-                lock.on_release = lambda: rig.tick(0.1)   # the tick blocks on the lock held by cancel/force
-            else:
-                yieldpoints.set_hook(None)
-                rig.tick(0.1)
-                yieldpoints.set_hook(hook_in_req)
+            yieldpoints.set_hook(None)
+            spawn(lambda: rig.tick(0.1))   # the ticking thread runs up to where it blocks on Engine._lock (if the request holds it)
+            yieldpoints.set_hook(hook_in_req)
         try:
             if mode == "RT":
                 run_req()
@@ -174,6 +193,9 @@ def _scenario(sym, kind, phase, mode, k, takes_lock=None):
                     return None, state["count"]
         finally:
             yieldpoints.set_hook(None)
+        g = state.get("g")
+        if g is not None and not g.dead:
+            raise AssertionError("harness bug: a party is still suspended after the interleaved step")
         for _ in range(3 if kind != "stop" else 4):
             rig.tick(0.1)
         obs = _observe(rig, state["exc"])
@@ -209,6 +231,11 @@ def _shards(tier):
             out.append({"request": r, "phase": ph, "direction": "R_in_T"})
             if r in ("inject", "edit", "pause", "stop", "hold"):
                 out.append({"request": r, "phase": ph, "direction": "T_in_R"})
+    # ticks that complete a Stop or a Restart replace the interpreter and the command manager
+    for r in (["start"] if tier == "quick" else ["start", "pause", "stop", "inject", "edit", "restart"]):
+        for ph in ["cmd+Stop0", "cmd+Stop1", "cmd+Restart1", "cmd+Restart2"] + ([] if tier == "quick" else ["wait+Stop1", "cmd+Restart0", "cmd+Restart3"]):
+            out.append({"request": r, "phase": ph, "direction": "R_in_T"})
+            out.append({"request": r, "phase": ph, "direction": "T_in_R"})
     return out
 
 
@@ -219,11 +246,11 @@ OBLIGATIONS = [Obligation(
              "openpectus.engine.engine:Engine.force_instruction", "openpectus.engine.method_manager:MethodManager.merge_method",
              "openpectus.lang.exec.pinterpreter:PInterpreter.inject_node"],
     symbolic="the yield point (statement boundary) at which the other party runs: every statement of Engine.tick (request inside tick) or every statement of the request's instrumented functions (tick inside request)",
-    bounds={"quick": "7 requests (inject, Pause, Stop, Hold, live edit, cancel Wait, force Wait) x 2 run phases (UOD command running; Wait running), one request per tick, either party split once",
-            "thorough": "3 run phases"},
+    bounds={"quick": "7 requests (inject, Pause, Stop, Hold, live edit, cancel Wait, force Wait) x 2 run phases (UOD command running; Wait running), plus Start in the 4 ticks around the completion of a Stop / Restart; one request per tick, either party preempted once (plus the lock hand-over)",
+            "thorough": "3 run phases; Start, Pause, Stop, inject, live edit, Restart in 7 stopping / restarting phases"},
     assumptions=["interleavings at statement boundaries of the instrumented functions only (not inside the interpreter or command manager)",
                  "either party is preempted once: schedules in which both are split more than once are outside the claim",
-                 "Engine._lock replaced by a recording lock with the same blocking semantics; replays also run on the instrumented modules (the hook is a no-op call)",
+                 "Engine._lock replaced by a coroutine lock with the blocking semantics of threading.Lock (the blocked party resumes at the release and then runs to its end before the releasing party continues); replays also run on the instrumented modules (the hook is a no-op call)",
                  "tick interval fixed; fake hardware; log statements removed at import"],
 )]
 
